@@ -327,10 +327,21 @@ def judge(ctx, module, cfg, records, label, workers=None, timeout=3600, env=None
         raise Infra("no records to judge for " + label)
     CH = 20000
     if len(records) > CH:       # big batches: one TLC run per chunk (ndJsonDeserialize and the JVM stay comfortable)
-        bad, last = [], None
+        bad, last, merged = [], None, {}
         for k in range(0, len(records), CH):
             b, last = judge(ctx, module, cfg, records[k:k + CH], "%s-part%d" % (label, k // CH), workers=workers, timeout=timeout, env=env)
             bad += [k + i for i in b]
+            # the items TLC printed carry the record's 1-based position in its chunk as their first field: shift it
+            for tag, items in last.tagged.items():
+                for x in items:
+                    if tag in ("MISMATCH", "DEV", "WHY", "KNOWN"):
+                        head, sep, rest = x.partition(",")
+                        try:
+                            x = str(int(head.strip()) + k) + sep + rest
+                        except ValueError:
+                            pass
+                    merged.setdefault(tag, []).append(x)
+        last.tagged = merged
         return sorted(bad), last
     tpath = os.path.join(ctx.work, "trace-%s.ndjson" % label)
     write_ndjson(tpath, records)
